@@ -117,6 +117,24 @@ class ExprMixin(CallMixin):
             return FuncV(module, module.functions[name])
         if name in module.classes:
             return RefV(f"{module.name}.{name}")
+        if name in module.assigns and name in module.imports:
+            # bound both by an import and by an assignment (optional-dependency guard): either may hold
+            q = self.repo.canonical(module.imports[name])
+            alts: List[V] = [self.ref_value(q)]
+            for v in module.assigns[name]:
+                try:
+                    alts.append(self.eval(v, {}, module))
+                except (AnalysisError, _Raise, PathAbort):
+                    alts.append(Sym("global", f"{module.name}.{name}"))
+            gk = f"{module.name}.{name}"
+            if gk not in self.global_choice:
+                # optional dependencies are present or absent together: one choice per module and path
+                mk = f"optional-imports({module.name})"
+                if mk not in self.global_choice:
+                    self.global_choice[mk] = self.choose(2, mk)
+                    self.cond(mk, "available" if self.global_choice[mk] == 0 else "missing")
+                self.global_choice[gk] = 0 if self.global_choice[mk] == 0 else min(1, len(alts) - 1)
+            return alts[self.global_choice[gk]]
         if name in module.assigns:
             vals = module.assigns[name]
             try:
@@ -132,6 +150,8 @@ class ExprMixin(CallMixin):
         if name in module.imports:
             q = self.repo.canonical(module.imports[name])
             return self.ref_value(q)
+        if name == "__call_decorated__":
+            return Sym("calldecorated")
         if name in BUILTIN_NAMES or name in BUILTIN_EXC:
             return RefV("builtins." + name)
         if name in ("True", "False", "None"):
